@@ -12,6 +12,9 @@ mod ops;
 #[path = "../../harness/src/ops_io.rs"]
 #[allow(dead_code)]
 mod ops_io;
+#[path = "../../harness/src/ops_canon.rs"]
+#[allow(dead_code)]
+mod ops_canon;
 #[path = "../../harness/src/val.rs"]
 mod val;
 
